@@ -392,9 +392,19 @@ impl<'a> Trainer<'a> {
 
         let bias = unsafe { (bias / quantize_multiplier).to_int_unchecked::<i32>() };
 
+        #[cfg(feature = "verif-hooks")]
+        crate::verif::with_trace(|t| {
+            *t = crate::verif::VerifTrainTrace::default();
+            t.bias = bias;
+            t.labels = model.labels().to_vec();
+        });
+
         for (feature, fid) in self.feature_ids {
             let raw_weight = model.feature_coefficient(i32::try_from(fid)?, wb_idx);
             let weight = unsafe { (raw_weight / quantize_multiplier).to_int_unchecked::<i32>() };
+
+            #[cfg(feature = "verif-hooks")]
+            crate::verif::with_trace(|t| t.weights.push((verif_feature(&feature), weight)));
 
             if weight == 0 {
                 continue;
@@ -489,6 +499,50 @@ impl<'a> Trainer<'a> {
     /// Returns the number of boundary features.
     pub fn n_features(&self) -> usize {
         self.feature_ids.len()
+    }
+
+    /// Returns the stored training examples with features decoded (read-only).
+    #[cfg(feature = "verif-hooks")]
+    pub fn verif_examples(&self) -> Vec<(Vec<(crate::verif::VerifFeature, f64)>, f64)> {
+        let mut id_to_feature = HashMap::new();
+        for (feature, &fid) in &self.feature_ids {
+            id_to_feature.insert(fid, verif_feature(feature));
+        }
+        self.xs
+            .iter()
+            .zip(&self.ys)
+            .map(|(x, &y)| {
+                (
+                    x.iter()
+                        .map(|(fid, v)| (id_to_feature[fid].clone(), *v))
+                        .collect(),
+                    y,
+                )
+            })
+            .collect()
+    }
+}
+
+#[cfg(feature = "verif-hooks")]
+fn verif_feature(feature: &BoundaryFeature) -> crate::verif::VerifFeature {
+    use crate::verif::VerifFeature;
+    match feature {
+        BoundaryFeature::CharacterNgram(f) => VerifFeature::CharNgram {
+            ngram: f.ngram.to_string(),
+            rel_position: f.rel_position,
+        },
+        BoundaryFeature::CharacterTypeNgram(f) => VerifFeature::TypeNgram {
+            ngram: f.ngram.to_vec(),
+            rel_position: f.rel_position,
+        },
+        BoundaryFeature::DictionaryWord(f) => VerifFeature::DictWord {
+            length: f.length,
+            position: match f.position {
+                DictionaryWordPosition::Left => 0,
+                DictionaryWordPosition::Inside => 1,
+                DictionaryWordPosition::Right => 2,
+            },
+        },
     }
 }
 
